@@ -181,6 +181,7 @@ def _plan(tier):
             plan.append(("energy", dict(update=up, case=case), ("done",)))
         for case in ("general", "nodata"):
             plan.append(("forces", dict(update=up, case=case), ("done",)))
+    plan.append(("energy", dict(update="tanh", case="reference"), (), "midpoint-at-reference"))
     return plan
 
 
